@@ -84,8 +84,8 @@ Ovf10b == Rep(9, 255) \o <<3>>                             \* 10th byte 3: 2^64-
 Ovf11 == Rep(10, 128) \o <<1>>                             \* no termination within 10 bytes
 Huge == Rep(9, 255) \o <<1>>                               \* 2^64-1, a legal varint
 
-VarClasses == {"padval", "padkey", "padvalmax", "padkeymax", "ovf10", "ovf10b", "ovf11", "trunc", "wrongnum", "wrongwt", "badwt", "missing", "dup"}
-LdClasses == {"padkey", "padlen", "padkeymax", "padlenmax", "ovf10", "ovf10b", "ovf11", "trunc", "wrongnum", "wrongwt", "badwt", "missing", "dup",
+VarClasses == {"padval", "padkey", "padvalmax", "padkeymax", "wtbit2", "ovf10", "ovf10b", "ovf11", "trunc", "wrongnum", "wrongwt", "badwt", "missing", "dup"}
+LdClasses == {"padkey", "padlen", "padkeymax", "padlenmax", "wtbit2", "ovf10", "ovf10b", "ovf11", "trunc", "wrongnum", "wrongwt", "badwt", "missing", "dup",
               "lenpast", "lenhuge", "lenshort"}
 StrClasses == LdClasses \cup {"badutf8", "badutf8b", "overlong", "nonnfc", "nonnfc2", "nfcok"}
 RepClasses == LdClasses \cup {"emptyelem"}
@@ -106,6 +106,7 @@ DevVar(num, v, c) ==
     [] c = "wrongnum" -> Key(num + 16, 0) \o V
     [] c = "wrongwt" -> Key(num, 2) \o V
     [] c = "badwt" -> Key(num, 5) \o V
+    [] c = "wtbit2" -> Key(num, 4) \o V                       \* the right wire type with bit 2 set: 4 is not a wire type
     [] c = "missing" -> <<>>
     [] c = "dup" -> K \o V \o K \o V
 
@@ -123,6 +124,7 @@ DevLd(num, d, c) ==
     [] c = "wrongnum" -> Key(num + 16, 2) \o L \o d
     [] c = "wrongwt" -> Key(num, 0) \o L \o d
     [] c = "badwt" -> Key(num, 1) \o L \o d
+    [] c = "wtbit2" -> Key(num, 6) \o L \o d                  \* 2 with bit 2 set: 6 is not a wire type
     [] c = "missing" -> <<>>
     [] c = "dup" -> K \o L \o d \o K \o L \o d
     [] c = "lenpast" -> K \o Varint(NatToNum(Len(d) + 100)) \o d
